@@ -154,4 +154,44 @@ theorem read_write_same (f : File) (off : Nat) (bs : Bytes) : (f.write off bs).r
     rw [List.getD_eq_getElem?_getD, List.getElem?_eq_getElem hk1, List.getD_eq_getElem?_getD, List.getElem?_eq_getElem hk2] at b1
     simpa using b1
 
+/-- a read is determined by the size and the bytes in its range -/
+theorem read_of_bytes (f : File) (off : Nat) (l : Bytes) (hsz : off + l.length ≤ f.size)
+    (hb : ∀ k, k < l.length → f.byte (off + k) = l.getD k 0) : f.read off l.length = some l := by
+  cases h : f.read off l.length with
+  | none =>
+    unfold read at h
+    split at h
+    · omega
+    · cases h
+  | some m =>
+    have l1 := read_length _ _ _ _ h
+    congr 1
+    apply List.ext_getElem l1
+    intro k hk1 hk2
+    have b1 := read_byte _ _ _ _ h k (by omega)
+    rw [hb k hk2] at b1
+    rw [List.getD_eq_getElem?_getD, List.getElem?_eq_getElem hk1, List.getD_eq_getElem?_getD, List.getElem?_eq_getElem hk2] at b1
+    simpa using b1
+
+theorem read_size (f : File) (off len : Nat) (l : Bytes) (h : f.read off len = some l) : off + len ≤ f.size := by
+  unfold read at h
+  split at h
+  · cases h
+  · omega
+
+/-- a write outside the range of a successful read does not change it -/
+theorem read_write_disjoint (f : File) (off : Nat) (bs : Bytes) (off' len : Nat) (l : Bytes)
+    (h : f.read off' len = some l) (hd : off' + len ≤ off ∨ off + bs.length ≤ off') :
+    (f.write off bs).read off' len = some l := by
+  have hl := read_length _ _ _ _ h
+  have hs := read_size _ _ _ _ h
+  subst hl
+  apply read_of_bytes
+  · rw [size_write]; omega
+  · intro k hk
+    rw [byte_write]
+    have : ¬ (off ≤ off' + k ∧ off' + k < off + bs.length) := by omega
+    simp only [this, ite_false]
+    exact (read_byte _ _ _ _ h k hk).symm
+
 end HC.File
